@@ -130,3 +130,38 @@ func (c *Ctx) checkGateDominance(rule string, sites []SinkSite, gates map[string
 			what+" outside the owning gates: "+st.Prim+" in "+st.Fn.Key+" is not below any function of the frozen gate table "+st.Detail, path)
 	}
 }
+
+// checkDominated: `callee` may run only below the given gates (every non-test incoming call
+// edge comes from a gate or from a function that is itself reachable only through gates).
+func (c *Ctx) checkDominated(rule, callee string, gates map[string]string, what string) {
+	if c.F(rule, callee) == nil {
+		return
+	}
+	gset := map[string]bool{}
+	for k := range gates {
+		gset[k] = true
+		if c.P.Funcs[k] == nil {
+			c.Undecided(rule, k, "gate", "unresolved gate function "+k)
+		}
+	}
+	dom := c.P.GateDominated(gset)
+	pos := c.P.Pos(c.P.Funcs[callee].Decl.Pos())
+	if dom[callee] && !gset[callee] {
+		c.Hold(rule, callee, "callers-within-gates", pos, what+": every caller is one of "+strings.Join(sortedKeys(gset), ", ")+" or reachable only through them")
+		return
+	}
+	n := 0
+	for _, e := range c.P.CG().In[callee] {
+		if c.P.IsTestFile(e.From.Decl.Pos()) || e.From.Key == callee {
+			continue
+		}
+		if gset[e.From.Key] || dom[e.From.Key] {
+			continue
+		}
+		n++
+		c.Violate(rule, callee, "caller:"+e.From.Key, e.Pos, what+": called ("+e.Kind+") from "+e.From.Key+", which is not below the allowed gates "+strings.Join(sortedKeys(gset), ", "), nil)
+	}
+	if n == 0 {
+		c.Violate(rule, callee, "callers-within-gates", pos, what+": function has no caller below the allowed gates (dead or entry point)", nil)
+	}
+}
